@@ -15,6 +15,7 @@
 -/
 import SfProofs.TwinClose
 import SfProps.C09
+import SfModel.AbsTwin
 namespace Sf.C09Twin
 open Sf
 
@@ -118,5 +119,50 @@ example : (match openHandle 0 wS .w 0x010002 2 8000 with
 /-- the hypothesis is met: on the read-only handle of C09.lean, an unknown whence is refused and a one-frame read is error-blind -/
 example : Wf C09.eH C09.eS [(true, .seek 0 0 7), (false, .read 0 .s16 true 1)] :=
   ⟨Or.inl (by unfold seekKnown; decide), by show (1 : Int) ≠ 0; decide, trivial⟩
+
+end Sf.C09Twin
+
+/-! ## what the predicate of the check means (`Sf.AbsTwin.twinOk`, evaluated by `sfmodel abs-twin` on the implementation's transcripts) -/
+namespace Sf.C09Twin
+open Sf.AbsTwin
+
+theorem insFail_none (i : Ins) : insFail i = none ↔ (i.must = true → i.refused = true ∧ i.err ≠ 0 ∧ 0 < i.msgLen) := by
+  unfold insFail
+  cases hm : i.must <;> cases hr : i.refused <;> simp
+
+theorem pairFail_none (p : Pair) : pairFail p = none ↔ p.base = p.twin := by
+  unfold pairFail
+  by_cases h : p.base = p.twin <;> simp [h]
+
+theorem filterMap_nil {α β} (f : α → Option β) (l : List α) : l.filterMap f = [] ↔ ∀ x ∈ l, f x = none := by
+  induction l with
+  | nil => simp
+  | cons a r ih =>
+    cases h : f a <;> simp [List.filterMap_cons, h, ih]
+
+/-- **A twin record is accepted exactly when every call of an invalid class was refused with an error code and a message, and every
+    line the two histories share — later calls on the handle, the close, the bytes of the closed file, info / metadata / audio of the
+    re-opened file — is the same with and without the refused calls.** -/
+theorem twinOk_meaning (r : Record) :
+    twinOk r = true ↔
+      (∀ i ∈ r.ins, i.must = true → i.refused = true ∧ i.err ≠ 0 ∧ 0 < i.msgLen) ∧ (∀ p ∈ r.pairs, p.base = p.twin) := by
+  unfold twinOk judge
+  rw [List.isEmpty_iff, List.append_eq_nil_iff, filterMap_nil, filterMap_nil]
+  constructor
+  · rintro ⟨a, b⟩
+    exact ⟨fun i hi => (insFail_none i).mp (a i hi), fun p hp => (pairFail_none p).mp (b p hp)⟩
+  · rintro ⟨a, b⟩
+    exact ⟨fun i hi => (insFail_none i).mpr (a i hi), fun p hp => (pairFail_none p).mpr (b p hp)⟩
+
+/-- in particular the closed files are byte-identical -/
+theorem accepted_closed_files_equal (r : Record) (h : twinOk r = true) (p : Pair) (hp : p ∈ r.pairs) (_ : p.phase = .file) :
+    p.base = p.twin := ((twinOk_meaning r).mp h).2 p hp
+
+/-- non-vacuity: an accepted record, and one rejected by each clause (a seek that was not refused; a refusal without error code;
+    a closed file that differs) -/
+example : twinOk { ins := [⟨3, true, true, 5, 9⟩, ⟨7, false, false, 0, 9⟩], pairs := [⟨5, .state, "ret=1", "ret=1"⟩, ⟨9, .file, "len=2 hex=0102", "len=2 hex=0102"⟩] } = true ∧
+    judge { ins := [⟨3, true, false, 0, 9⟩], pairs := [] } = [.failValue 3] ∧
+    judge { ins := [⟨3, true, true, 0, 9⟩], pairs := [] } = [.errorCode 3] ∧
+    judge { ins := [], pairs := [⟨9, .file, "len=2 hex=0102", "len=3 hex=010200"⟩] } = [.differs .file 9] := by decide
 
 end Sf.C09Twin
